@@ -49,6 +49,10 @@ class Folder:
             v = self.consts(norm(e))
             if v is not None:
                 return ('const', v[0])
+            if isinstance(e.value, ast.Name) and e.value.id == 'string':
+                from .consteval import _STRING_CONSTS
+                if e.attr in _STRING_CONSTS:
+                    return ('const', _STRING_CONSTS[e.attr])       # constants of the standard `string` module
             return None
         if isinstance(e, ast.Tuple):
             vs = [self.value(x) for x in e.elts]
